@@ -4,6 +4,21 @@ import json, subprocess, sys
 
 PBT = "property-based testing: proptest-seeded choice sequences decoded into cases, custom shrinker, explicit oracle"
 CHECKS = {
+    "C01": dict(engine="E3-cluster", technique=PBT + " (fault-injected in-process cluster of real nodes vs LWW reference model, message-fate scripts)",
+        text="60k (quick) / 3M (thorough) generated operation histories on 2-4 real nodes with generated loss, duplication, delay and reordering of every direct, batch and repair message; after healing and three repair intervals every node's documents are compared with the LWW model of the operations as written by their origins.",
+        note="RPC transport replaced by an in-process function call (hook H-rpc), membership injected (H-members), clocks follow paused tokio time plus skew (H-clock). Document fetches are never failed, only delayed/duplicated (the poller's std::time watchdog cannot be advanced by a paused-time simulation).", ref="3 C01"),
+    "C06": dict(engine="E3-cluster", technique=PBT + " (consistency-level promise checked against per-node storage right after the call, generated non-acknowledging replicas)",
+        text="100k (quick) / 3M (thorough) generated layouts x issuer x level x operation x replica behaviours on real nodes; the promise of the level is checked against storage immediately after the call returns, the error counts against the acknowledgements that came back, and later replication after healing.",
+        note="Same transport/membership/clock hooks as C01; storage failures are injected only outside repair cycles.", ref="3 C06"),
+    "C13": dict(engine="E3-cluster", technique="exhaustive enumeration of add/remove sequences (bounded) + random longer sequences, model = set of registered names",
+        text="All 46656 add/remove sequences of length 6 over three services (279936 of length 7 in the thorough tier) plus 20k random sequences up to length 12, each probed after every step with real clients against a real server state.",
+        note="Server reached through the in-process transport (H-rpc): routing, handler lookup and status encoding are the real code, the socket layer is not exercised.", ref="3 C13"),
+    "C16": dict(engine="E3-cluster", technique=PBT + " (model-based: per-delta exactness + sum of deltas vs final snapshot; known finding excluded by signature)",
+        text="20k (quick) / 1M (thorough) generated snapshot sequences, subscription moments and read patterns on one real node.",
+        note="Snapshots are injected where chitchat would publish them (H-members). The recorded finding 'watch-latest-only' is excluded by its exact signature (every observed delta correct AND the subscriber missed a delta); any wrong delta is still a violation.", ref="3 C16"),
+    "C19": dict(engine="E3-cluster", technique=PBT + " (differential: state received through the real service+client vs independently built reference set, probe grid of further operations)",
+        text="6000 (quick) / 300k (thorough) sender states up to 20000 entries fetched with the real get_state path, compared on live ids, tombstones, stamps, will_apply probes and one further operation; 3000 reply frames with every bit flip / truncation refused.",
+        note="The reference set is built by applying the same operations directly to an OrSWotSet of the harness (trusts the CRDT, which C03-C05 cover).", ref="3 C19"),
     "C02": dict(engine="E2-actor", technique=PBT + " (model-based: storage contents vs deserialised set after every request, injected storage faults)",
         text="Randomised request histories (300k quick / 10M thorough) against the real KeyspaceGroup actors on an inspectable fault-injecting store; set and store are compared after every request. Exploration: finds counterexamples, proves nothing.",
         note="Trusts ModelStore (harness Storage implementation that honours the BulkMutationError contract) and the view obtained through Serialize + diff-against-empty.", ref="3 C02"),
@@ -30,7 +45,7 @@ CHECKS = {
         note="from_u64 on words whose fractional byte is >= 250 is outside the claim.", ref="3 C10"),
     "C12": dict(engine="E1-pure", technique=PBT + " (round-trip + exhaustive single-bit-flip / truncation / crafted-short-frame mutation of every generated frame)",
         text="6000 generated messages per quick run (300k thorough), each expanded into all single-bit flips (frames <= 4 KiB), all truncations and crafted short frames with correct checksums: about 60M mutated frames per quick run.",
-        note="Frame level only so far (DataView::using); an independent CRC32 decides whether a damaged frame must be refused.", ref="3 C12"),
+        note="Frame level (DataView::using); an independent CRC32 decides whether a damaged frame must be refused.", ref="3 C12"),
     "C15": dict(engine="E1-pure", technique=PBT + " (validity predicate in both directions over selection histories on shared cursors)",
         text="300k (quick) / 30M (thorough) layouts x selection histories through the public NodeSelector trait.",
         note="Needs hook H-rng for reproducible data-centre choice; the oracle holds for every RNG outcome.", ref="3 C15"),
@@ -69,6 +84,7 @@ def main():
         "hooks": hooks,
         "engines": [
             {"name": "E1-pure", "path": "harness/src", "serves_properties": [p for p in props if CHECKS.get(p, {}).get("engine") == "E1-pure"], "kind_free_text": "direct synchronous calls into datacake-crdt / datacake-rpc / datacake-node types, cases decoded from proptest-generated choice sequences"},
+            {"name": "E3-cluster", "path": "harness/src/e3.rs", "serves_properties": [p for p in props if CHECKS.get(p, {}).get("engine") == "E3-cluster"], "kind_free_text": "real DatacakeNode(s) + eventual-consistency extension / rpc Server inside one deterministic paused-time tokio runtime over the in-process transport hook"},
             {"name": "E2-actor", "path": "harness/src/e2.rs", "serves_properties": [p for p in props if CHECKS.get(p, {}).get("engine") == "E2-actor"], "kind_free_text": "real KeyspaceGroup/KeyspaceActor/Clock on a paused-time current-thread tokio runtime over an inspectable fault-injecting Storage"},
         ],
         "checks": checks,
